@@ -336,19 +336,23 @@ impl<T: HashAlgorithm> Nomt<T> {
         #[cfg(nomt_verif)]
         crate::verif::point("lin", "begin_session.locked");
 
+        let merkle_updater = self.merkle_update_pool.begin::<T>(
+            self.page_cache.clone(),
+            self.page_pool.clone(),
+            self.store.clone(),
+            live_overlay.clone(),
+            prev_root,
+        );
+        let warm_up_join = merkle_updater.warm_up_join();
+
         Session {
             store,
-            merkle_updater: self.merkle_update_pool.begin::<T>(
-                self.page_cache.clone(),
-                self.page_pool.clone(),
-                self.store.clone(),
-                live_overlay.clone(),
-                prev_root,
-            ),
+            merkle_updater,
             metrics: self.metrics.clone(),
             rollback_delta,
             overlay: live_overlay,
             witness_mode: params.witness,
+            warm_up_join,
             access_guard,
             prev_root: Root(prev_root),
             _marker: std::marker::PhantomData,
@@ -496,6 +500,11 @@ pub struct Session<T> {
     rollback_delta: Option<rollback::ReverseDeltaBuilder>,
     overlay: LiveOverlay,
     witness_mode: WitnessMode,
+    // Waits for the warm-up worker of `merkle_updater` when the session goes away. Declared after
+    // `merkle_updater` and `rollback_delta`: both have told their workers to stop by then, so the
+    // session holds nothing another session could be waiting for while it waits here.
+    #[allow(dead_code)]
+    warm_up_join: Option<merkle::WarmUpJoin>,
     // Note: this needs to be after rollback_delta and merkle_updater in declaration order,
     // so this is dropped after all read transactions are taken, even when the session is dropped.
     access_guard: Option<ArcRwLockReadGuard<parking_lot::RawRwLock, ()>>,
